@@ -6,6 +6,7 @@ import JominiModel.Proofs.JsonDom
 import JominiModel.Proofs.JsonGroup
 import JominiModel.Spec.JsonDoc
 import JominiModel.Proofs.JsonDoc
+import JominiModel.Proofs.JsonTape
 /-
 C16 — JSON conversion is valid JSON and carries the document's content.
 Only property theorems live here; helper lemmas are in `Proofs/Json*.lean`.
@@ -259,5 +260,17 @@ example : toJson ⟨false, .group, .all⟩ .utf8 .obj
     #[.unquoted [97], .array 6 true, .unquoted [49], .unquoted [98], .op .gt, .unquoted [50],
       .end_ 1, .unquoted [97], .unquoted [120]] =
     .ok (some (.obj [([97], .arr [.arr [.int 1, .obj [([98], .obj [(Op.gt.name, .int 2)])]], .str [120]])])) := by rfl
+
+/-- Content, functional form (DESIGN §8 growth theorem): for every document tree `d` whose
+side conditions hold (`docOk`: keys are key tokens, header bodies are containers, no trailing
+items without the `MixedContainer` token), converting ITS token list yields `jsonOfDoc d`. -/
+theorem C16_content_tapeOf (o : Opts) (enc : Enc) (d : Doc) (h : docOk d = true) :
+    toJson o enc .obj (tapeOf d) = .ok (some (jsonOfDoc o enc d)) :=
+  toJson_obj_doc o enc (tapeOf d) d (docAt_tapeOf d h)
+
+/-- hypotheses satisfiable: the tree of `c = rgb { 1 } c = { a > 2 }` -/
+example : docOk ⟨[.mk (.unquoted [99]) none (.header [114, 103, 98] (.arr false [.val (.scalar false [49])])),
+      .mk (.unquoted [99]) none (.obj false false [.mk (.unquoted [97]) (some .gt) (.scalar false [50])] [])],
+    false, []⟩ = true := by decide +kernel
 
 end Jomini.Props.C16
